@@ -67,7 +67,7 @@ TABLE = {
           ('translated_cycle_check_unknown_identifier_is_a_key_error', '@gen_assert_no_self_dependency_missing', []),
           ('translated_cycle_check_on_every_invariant_graph_state', 'gen_assert_no_self_dependency_cycle_check', []),
           ]),
- 'C03': ('Base Digraph Names Graph GraphObs GraphInv GraphAtomicLemmas GraphAtomicProofs Extracted SourceFacts SFMutators',
+ 'C03': ('Base Digraph Names Graph GraphObs GraphInv GraphAtomicLemmas GraphAtomicProofs Extracted SourceFacts SFMutators PyRtMut MutGenRollback MutGenRollbackProofs',
          'C03 — a rejected mutation leaves the graph exactly as it was.\n'
          '    [equiv] allows only the insertion order of the edge indexes and of the per-node directed lists to differ\n'
          '    (what a failed-and-restored change_edge_type / replace_edge leaves behind); every observation is insensitive to it.',
@@ -77,6 +77,15 @@ TABLE = {
           ('all_but_retyping_mutators_leave_the_state_literally_unchanged', 'failed_step_exact Names.parse Names.fmt', []),
           ('rejected_add_edge_leaves_no_implicit_nodes', '@at_add_edge_fail Names.parse', []),
           ('mutator_defaults_in_source_are_the_modelled_ones', 'mutator_defaults', []),
+          ('translated_change_edge_type_equals_the_model_result_and_leftover_state', 'gen_change_edge_type_eq', []),
+          ('translated_replace_edge_equals_the_model_result_and_leftover_state', 'gen_replace_edge_eq', []),
+          ('translated_delete_node_equals_the_model', 'gen_delete_node_eq', []),
+          ('translated_delete_node_result_on_every_graph', 'gen_delete_node_res', []),
+          ('translated_delete_edge_equals_the_model', 'gen_delete_edge_eq', []),
+          ('translated_change_edge_type_failing_call_is_a_noop', 'gen_change_edge_type_failed_noop', []),
+          ('translated_replace_edge_failing_call_is_a_noop', 'gen_replace_edge_failed_noop', []),
+          ('translated_delete_node_failing_call_is_a_noop', 'gen_delete_node_failed_noop', []),
+          ('translated_delete_edge_failing_call_is_a_noop', 'gen_delete_edge_failed_noop', []),
           ]),
  'C05': ('Base Digraph Names Graph GraphObs GraphInv Serial SerialProofs Closed Extracted SourceFacts SFSerialEq JsonText CorrJsonText JsonTextProofs',
          'C05 — dictionary / JSON serialisation round-trips to a deeply equal graph.\n'
@@ -472,8 +481,8 @@ TABLE = {
 }
 
 
-BASE_SPLIT = ('C02', 'C10', 'C14', 'C15', 'C16', 'C17', 'C18', 'C19', 'C20')
-GEN_PREFIXES = ('PyRtTS', 'TSGen', 'IdentifyGen', 'TraversalGen', 'PyRtLoop')
+BASE_SPLIT = ('C02', 'C03', 'C10', 'C14', 'C15', 'C16', 'C17', 'C18', 'C19', 'C20')
+GEN_PREFIXES = ('PyRtTS', 'TSGen', 'IdentifyGen', 'TraversalGen', 'PyRtLoop', 'PyRtMut', 'MutGen')
 
 
 def coq_type(imports, expr, unfold):
